@@ -11,7 +11,7 @@ set_option linter.unusedVariables false
 set_option linter.unreachableTactic false
 set_option linter.unusedTactic false
 
-namespace AurelVerif.C04
+namespace AurelVerif.C04L
 open AurelVerif.Gen.Core AurelVerif.Tensor AurelVerif.CoreTac AurelVerif.C08 AurelVerif.Spec.Curvature
 
 variable {K : Type} [Field K]
@@ -114,4 +114,4 @@ theorem populate_sym (A : Fin 3 → Fin 3 → Fin 3 → Fin 3 → K) (B : Fin 3 
         | exact hBd _ _
         | (rw [hBd]; simp only [neg_zero]; done)
 
-end AurelVerif.C04
+end AurelVerif.C04L
